@@ -31,7 +31,7 @@ def m_len(it, args, kw):
         t = z3.Int(it.ex.fresh_name(f"{v.name}_len"))
         it.ex.add_fact(t >= 0)
         return SInt(t)
-    if isinstance(v, (list, tuple, dict, str, set, frozenset, bytes, bytearray, range)):
+    if isinstance(v, (list, tuple, dict, str, set, frozenset, bytes, bytearray, range)) or type(v).__name__ == "deque":
         return len(v)
     if isinstance(v, SObj):
         um = M._user_method(it, v, "__len__")
@@ -712,6 +712,9 @@ def m_count(it, args, kw):
 @model(dict.get)
 def m_dget(it, args, kw):
     d, k = args[0], args[1]
+    if type(d).__name__ == "SAbsSet":  # an abstract mapping: a listed id maps to some (opaque) value
+        default = args[2] if len(args) > 2 else kw.get("default")
+        return {} if it.truth(M.absset_member(it, d, k)) else default
     default = args[2] if len(args) > 2 else kw.get("default")
     return M.dict_get(it, d, k, default=default)
 
@@ -789,7 +792,19 @@ def m_dcontains(it, args, kw):
 
 @model(list.append)
 def m_lappend(it, args, kw):
+    if type(args[0]).__name__ == "SAbsSet":
+        args[0].extra.append(args[1])
+        return None
     args[0].append(args[1])
+
+
+@model(dict.fromkeys)
+def m_dfromkeys(it, args, kw):
+    args = [a for a in args if a is not dict]
+    d = {}
+    for k in M.iterate(it, args[0]):
+        M.dict_set(it, d, k, args[1] if len(args) > 1 else None)
+    return d
 
 
 @model(list.extend)
@@ -914,6 +929,28 @@ def m_exc_init(it, args, kw):
         o.attrs["args"] = tuple(args[1:])
         return None
     return it.call_real(BaseException.__init__, list(args), kw)
+
+
+# ------------------------------------------------------------------ functools / collections
+import collections  # noqa: E402
+import functools  # noqa: E402
+
+
+@model(functools.wraps)
+def m_wraps(it, args, kw):
+    return lambda f: f  # metadata copying only
+
+
+@model(functools.update_wrapper)
+def m_update_wrapper(it, args, kw):
+    return args[0]
+
+
+@model(collections.deque)
+def m_deque(it, args, kw):
+    items = list(M.iterate(it, args[0])) if args else []
+    maxlen = args[1] if len(args) > 1 else kw.get("maxlen")
+    return collections.deque(items, maxlen=maxlen)
 
 
 # ------------------------------------------------------------------ asyncio (A13, A14)
@@ -1141,12 +1178,33 @@ def i_sym_text(it, args, kw):
     return SUnb(args[0])
 
 
+def i_sym_idset(it, args, kw):
+    """An abstract set of device ids; probes: the ids whose membership a replay needs."""
+    from .sym import SAbsSet
+    name, probes = args[0], list(args[1]) if len(args) > 1 else []
+    s_ = SAbsSet(name)
+    _register_input(it, name, "idset", (s_.fn, [str_chars(p) for p in probes if is_str(p) and len(str_chars(p)) == 9]))
+    return s_
+
+
+def i_set_global(it, args, kw):
+    from .interp import Env
+    Env.OVERLAY[(id(args[0].__dict__), args[1])] = args[2]
+
+
+def i_get_global(it, args, kw):
+    from .interp import Env
+    ov = Env.OVERLAY.get((id(args[0].__dict__), args[1]), Env)
+    return getattr(args[0], args[1]) if ov is Env else ov
+
+
 def i_new_object(it, args, kw):
     return SObj(args[0], dict(kw))
 
 
 INTRINSICS = {
-    "new_object": i_new_object, "sym_text": i_sym_text,
+    "new_object": i_new_object, "sym_text": i_sym_text, "sym_idset": i_sym_idset,
+    "set_global": i_set_global, "get_global": i_get_global, "id_mapping": (lambda it, args, kw: args[0]),
     "ghost": (lambda it, args, kw: it.ex.ghosts.setdefault(args[0], [])),
     "is_concrete": (lambda it, args, kw: not is_symbolic(args[0])),
     "sym_int": i_sym_int, "sym_bool": i_sym_bool, "sym_str": i_sym_str, "sym_float": i_sym_float,
